@@ -289,7 +289,7 @@ class ofp_flow_mod_table_id (of.ofp_flow_mod):
     MSB of command field.
     """
     def splice(self, *args):
-      assert self.command <= 0xff
+      assert 0 <= self.command <= 0xff
       self.command |= self.table_id << 8
       try:
         retval = func(self, *args)
